@@ -128,6 +128,28 @@ func suiteHash(c *ctx) {
 			pres = append(pres, L("pres", q("inline-keys"), stmtsSexp(base), q(h)))
 			c.count("pres_inline-keys")
 		}
+		// Postgres: a column created with another type and brought to its type by ALTER COLUMN … TYPE, then given a default
+		// and relieved of NOT NULL (neither is part of the fingerprint): the same live columns by another route
+		if dialect == "postgres" {
+			p := s.clone()
+			t := p.Tables[c.rng.Intn(len(p.Tables))]
+			ci := c.rng.Intn(len(t.Cols))
+			want := t.Cols[ci].Typ
+			nt := g.typ()
+			for nt == want {
+				nt = g.typ()
+			}
+			t.Cols[ci].Typ = nt
+			ps := p.scriptGrouped()
+			ps = append(ps, Stmt{Kind: "alterType", T: t.Name, A: t.Cols[ci].Name, B: want})
+			if c.rng.Intn(2) == 0 {
+				ps = append(ps, Stmt{Kind: "setDefault", T: t.Name, A: t.Cols[ci].Name, Col: ColDef{Opts: []Opt{{Kind: "default", DTag: "num", Val: "7"}}}})
+			}
+			if c.rng.Intn(2) == 0 {
+				ps = append(ps, Stmt{Kind: "dropNotNull", T: t.Name, A: t.Cols[ci].Name})
+			}
+			addPres("alter-column", ps, whole(ps), plain)
+		}
 		// detour: an extra column / index / table is created and dropped again
 		{
 			d := append([]Stmt{}, base...)
